@@ -32,6 +32,18 @@ ENTRY = "processing.process"
 
 
 def run(ck: Checker, prog: Program, tier: str):
+    _entry_effects(ck, prog)
+    ck.guard(_r2c, ck, prog)
+    # "the same settings" must mean the same thing in every call: no mutable default shared between settings objects, no cached
+    # serialisation, every constructor argument delivered (rules of C15)
+    from . import c15
+    with ck.borrow(c15, "C09.R2a+"):
+        ck.guard(c15.run, ck, prog, tier)
+
+
+def _entry_effects(ck: Checker, prog: Program, rules=("R1", "R2a", "R2b", "R3")):
+    """Effect summaries of process() and of every processing function it can dispatch to; `rules` selects which of the four
+    questions are asked (other properties borrow a subset)."""
     eng = engine(prog)
     entry = prog.func(ENTRY)
     if entry.params[:2] != ["records", "settings"]:
@@ -57,8 +69,8 @@ def run(ck: Checker, prog: Program, tier: str):
         s = eng.summary(f)
         # ---- R1
         on_records = [e for e in s.effects if e.origin[0] == "P" and e.origin[1] == 0]
-        groups = group_effects(prog, on_records)
-        if not groups:
+        groups = group_effects(prog, on_records) if "R1" in rules else {}
+        if not groups and "R1" in rules:
             ck.ok("C09.R1", fq, f"no effect on `{f.params[0]}` among {len(s.effects)} effects of the summary",
                   detail=f"effects={len(s.effects)}")
         for (func, text), effs in groups.items():
@@ -75,7 +87,9 @@ def run(ck: Checker, prog: Program, tier: str):
                       (path == ("fft_settings",) and e.kind in ("elem-store",))
             if not allowed:
                 bad.append(e)
-        if not bad:
+        if "R2a" not in rules:
+            bad = []
+        elif not bad:
             ck.ok("C09.R2a", fq, f"{len(on_settings)} effect(s) on `settings`, all on fft_settings")
         for (func, text), effs in group_effects(prog, bad).items():
             e = effs[0]
@@ -83,8 +97,8 @@ def run(ck: Checker, prog: Program, tier: str):
                          f"process() writes settings beyond fft_settings: {describe_effect(e)}; entry {fq}",
                          loc=_first_loc(e, func), path=chain_text(e))
         # ---- R2b
-        glob = [e for e in s.effects if e.origin[0] == "G"]
-        if not glob:
+        glob = [e for e in s.effects if e.origin[0] == "G"] if "R2b" in rules else []
+        if not glob and "R2b" in rules:
             ck.ok("C09.R2b", fq, "no module-level object written")
         for (func, text), effs in group_effects(prog, glob).items():
             e = effs[0]
@@ -92,7 +106,7 @@ def run(ck: Checker, prog: Program, tier: str):
                          f"process() mutates module-level state: {describe_effect(e)}; entry {fq}",
                          loc=_first_loc(e, func), path=chain_text(e))
         # ---- R3
-        if fq != ENTRY:
+        if fq != ENTRY and "R3" in rules:
             alias = reachable_nonlocal(eng, s, s.ret, exclude_fields={"meta"})
             if not alias:
                 ck.ok("C09.R3", fq, f"returned value {_short(s.ret)}: all numeric fields fresh")
@@ -103,12 +117,6 @@ def run(ck: Checker, prog: Program, tier: str):
                              loc=f.loc())
         n_eff_sites += len(s.effects)
 
-    ck.guard(_r2c, ck, prog)
-    # "the same settings" must mean the same thing in every call: no mutable default shared between settings objects, no cached
-    # serialisation, every constructor argument delivered (rules of C15)
-    from . import c15
-    with ck.borrow(c15, "C09.R2a+"):
-        ck.guard(c15.run, ck, prog, tier)
     ck.extra["entry_points"] = todo
     ck.extra["calls_resolved"] = eng.calls_resolved
     ck.extra["calls_through_unknown_values"] = eng.unresolved[:20]
